@@ -254,6 +254,36 @@ fn run(v: &Value, idx: usize, variant: usize) -> Vec<String> {
     let mut free = gen_table(&mut r, 2);
     free["t"].as_object_mut().unwrap().insert("always".into(), json!({"t": {"nested": {"i": 1}}}));
     let mut doc = build_doc(schema, &paths, &free);
+    if v["mut"]["k"] == "near-miss-key" {
+        // every other plausible spelling of a key this table defines (kebab / snake / camel case, plural /
+        // singular, prefixed with a sibling's or the parent's name) is an undefined key
+        let table = v["mut"]["p"].as_str().unwrap();
+        let ks = kinds(schema);
+        let prefix = if table.is_empty() { String::new() } else { format!("{table}.") };
+        let children: Vec<(String, &str)> = ks.iter().filter(|(p, _)| p.starts_with(&prefix) && !p[prefix.len()..].contains('.')).map(|(p, k)| (p[prefix.len()..].trim_end_matches("[]").to_string(), *k)).collect();
+        let defined: std::collections::BTreeSet<String> = children.iter().map(|(n, _)| n.clone()).collect();
+        let parent_name = table.rsplit('.').next().unwrap_or("").trim_end_matches("[]").to_string();
+        let mut problems = vec![];
+        for (name, kind) in &children {
+            let camel: String = { let mut up = false; name.chars().filter_map(|ch| if ch == '-' || ch == '_' { up = true; None } else if up { up = false; Some(ch.to_ascii_uppercase()) } else { Some(ch) }).collect() };
+            let mut aliases = vec![name.replace('-', "_"), name.replace('_', "-"), camel, format!("{name}s"), name.trim_end_matches('s').to_string(), name.to_uppercase(), format!("{parent_name}-{name}"), format!("{parent_name}_{name}")];
+            for (sib, _) in &children { if sib != name { aliases.push(format!("{sib}-{name}")); aliases.push(format!("{sib}_{name}")); } }
+            aliases.sort();
+            aliases.dedup();
+            for alias in aliases.into_iter().filter(|a| !a.is_empty() && !defined.contains(a)) {
+                let mut d2 = doc.clone();
+                let segs: Vec<&str> = if table.is_empty() { vec![] } else { table.split('.').collect() };
+                let value = match *kind { "bool" => json!({"b": true}), "strings" => json!({"a": [{"s": "x"}]}), "table" | "free" => json!({"t": {}}), "tables" => json!({"a": [{"t": {}}]}), _ => json!({"s": "x"}) };
+                table_at(&mut d2, &segs).insert(alias.clone(), value);
+                let mut text = String::new();
+                emit_table(&[], &d2, r.u64(..), &mut text);
+                if parse_and_project(schema, &text).is_ok() {
+                    problems.push(format!("{schema}: the undefined key {alias:?} (another spelling of {name:?}) is accepted in table {table:?}\n--- document ---\n{text}"));
+                }
+            }
+        }
+        return problems;
+    }
     mutate(schema, &mut doc, &v["mut"], variant);
     let mut text = String::new();
     emit_table(&[], &doc, r.u64(..), &mut text);
@@ -305,6 +335,8 @@ fn main() {
             let v = &raw[*i];
             let signature = if v["mut"]["k"] == "retype-table" && p.contains("must make parsing fail") {
                 format!("{}: an array is accepted where the table {} must be", v["schema"].as_str().unwrap(), v["mut"]["p"].as_str().unwrap())
+            } else if v["mut"]["k"] == "near-miss-key" {
+                format!("{}: undefined key accepted: {}", v["schema"].as_str().unwrap(), p.split('"').nth(1).unwrap_or("?"))
             } else {
                 format!("{} {} {}: {}", v["schema"].as_str().unwrap(), v["mut"]["k"].as_str().unwrap(), v["mut"]["p"].as_str().unwrap(), p.split(':').nth(1).unwrap_or("").split('(').next().unwrap_or("").trim().chars().take(60).collect::<String>())
             };
